@@ -234,10 +234,28 @@ func genC05Core(g *Gen, tier string, idx int) *wire.Scenario {
 	} else {
 		sc.Script = append(sc.Script, g.EditScript(o)...)
 	}
+	isearch := false
+	if mode == "emacs" && g.P(14) {
+		// an incremental history search: search text, keys that move through the matches, Return
+		// (no ESC-led sequences here: a lone ESC leaves the search, so a sequence cut after it is another input)
+		isearch = true
+		sc.Env.History = []wire.HistSrc{{Kind: "memory", Name: "h0", Entries: []string{"echo alpha", "git commit -m x", "ls -la /tmp", "echo beta gamma", "git status"}}}
+		sc.Script = sc.Script[:0]
+		for i := 0; i < g.N(3); i++ {
+			sc.Script = append(sc.Script, tok(string(Pick(g, []rune("eg"))), "self-insert"))
+		}
+		sc.Script = append(sc.Script, tok(Pick(g, []string{"\x12", "\x12", "\x13"}), "isearch-start"))
+		for _, r := range Pick(g, []string{"ech", "e", "git", "a", "t", "s", "mm", "zz"}) {
+			sc.Script = append(sc.Script, tok(string(r), "isearch-char"))
+		}
+		for i := 0; i < g.Range(0, 3); i++ {
+			sc.Script = append(sc.Script, tok(Pick(g, []string{"\t", "\x0e", "\x10", "\t", "\x7f"}), "isearch-move"))
+		}
+	}
 	macroWrapped := false
 	// a keyboard macro recorded over some of these keys, then replayed: what is recorded must not depend
 	// on how the recorded keys were cut into reads (emacs style here; the vi style is C18's)
-	if mode == "emacs" && g.P(25) && len(sc.Script) > 0 {
+	if mode == "emacs" && !isearch && g.P(25) && len(sc.Script) > 0 {
 		from := g.N(len(sc.Script))
 		body := append([]wire.Token(nil), sc.Script[from:]...)
 		body = append(body, tok(Pick(g, []string{"\x1b[D", "\x1b[C", "\x1bOD", "\x1b[1;5D", "\x1bb", "\x1bf"}), "arrow-key"))
@@ -632,7 +650,9 @@ func genC06(g *Gen, tier string, idx int) *wire.Scenario {
 		typedText += string(r)
 		sc.Script = append(sc.Script, tok(string(r), "self-insert"))
 	}
+	extended := false
 	if nb > 0 && g.P(20) {
+		extended = true
 		// the history holds lines that begin with what is being typed (what an autosuggestion would offer)
 		h := wire.HistSrc{Kind: "memory", Name: "hx", Entries: []string{typedText + g.word(false, 3), typedText + " " + g.word(false, 2)}}
 		sc.Env.History = append(sc.Env.History, h)
@@ -651,6 +671,36 @@ func genC06(g *Gen, tier string, idx int) *wire.Scenario {
 	var rest []wire.Token
 	if mode == "vi" && g.P(65) {
 		rest = append(rest, tok("\x1b", "vi-movement-mode"))
+		if extended && g.P(70) {
+			// on the last character, with a longer line of the same beginning in the history: the motions that
+			// would run off the end of the line
+			for i := 0; i < g.Range(1, 3); i++ {
+				cmd := Pick(g, []string{"vi-forward-char", "vi-forward-char", "vi-end-of-line", "vi-forward-word", "vi-end-word"})
+				if seq := g.Cat.ShortSeqFor("vi-command", cmd); seq != "" {
+					rest = append(rest, tok(seq, cmd))
+				}
+			}
+		}
+		if g.P(15) {
+			// a history search from command mode, confirmed: empty pattern, a whole entry, its beginning
+			pat := ""
+			if hs := sc.Env.History; len(hs) > 0 && len(hs[0].Entries) > 0 && g.P(70) {
+				pat = hs[0].Entries[g.N(len(hs[0].Entries))]
+				if i := strings.Index(pat, "\n"); i >= 0 {
+					pat = pat[:i]
+				}
+				if g.P(40) && len(pat) > 1 {
+					pat = pat[:g.Range(1, len(pat)-1)]
+				}
+			}
+			rest = append(rest, tok(Pick(g, []string{"/", "?"}), "vi-search"))
+			for _, r := range pat {
+				if r >= 0x20 && r < 0x7f {
+					rest = append(rest, tok(string(r), "search-char"))
+				}
+			}
+			rest = append(rest, tok("\r", "search-accept"))
+		}
 		rest = append(rest, g.editScriptTracker(tracker{main: "vi-command"}, o)...)
 	} else {
 		rest = g.EditScript(o)
@@ -823,6 +873,13 @@ func execC06(x *Ctx, sc *wire.Scenario) *wire.Result {
 				}
 				return violation(res, "INVARIANT", "C06.vi-command-cursor-on-char", "vi-cursor-past-end:"+detail,
 					fmt.Sprintf("vi command mode: cursor %d is past the last character of %q %s", w.Pos, w.Line, where))
+			}
+		}
+		if w.Kind == "main" && (w.Main == "vi-command" || w.Main == "vi-move" || w.Main == "vi") && w.Local == "" && w.Pos > 0 && w.Pos < n && !leftIsearch && judged {
+			// inside a multi-line buffer: on the newline that ends a line only when that line is empty
+			if rs := []rune(w.Line); rs[w.Pos] == '\n' && rs[w.Pos-1] != '\n' {
+				return violation(res, "INVARIANT", "C06.vi-command-cursor-on-char", "vi-cursor-on-the-newline-of-a-non-empty-line:"+lastCmd(sc, w.Tokens),
+					fmt.Sprintf("vi command mode: cursor %d is on the newline that ends a non-empty line of %q %s", w.Pos, w.Line, where))
 			}
 		}
 		if w.SelActive && !(w.SelB == -1 && w.SelE == -1) { // (-1,-1) is the API's "no range"
